@@ -703,7 +703,8 @@ def verify_unit(name, seed=None, twin=False, retries=True):
                 untagged.append(f)
         return failed, untagged
     failed, untagged = collect(res)
-    if retries and (failed or untagged or res.rlimit):
+    retry_worthy = [t for t in failed if t not in asm.known]
+    if retries and (retry_worthy or untagged or res.rlimit):
         base_rl = 10
         for i, fl in enumerate(unit.flags):
             if fl == "--rlimit" and i + 1 < len(unit.flags):
